@@ -99,10 +99,12 @@ func init() {
 	externInvoke = map[string]invokeHandler{}
 	S := externStatic
 	S["(*sync.Mutex).Lock"] = func(fr *Frame, c *ssa.CallCommon, a []*Val, av []ssa.Value, pos token.Pos) *Val {
+		fr.curLockArg = av[0]
 		fr.doLock(a[0].T, pos)
 		return nil
 	}
 	S["(*sync.Mutex).Unlock"] = func(fr *Frame, c *ssa.CallCommon, a []*Val, av []ssa.Value, pos token.Pos) *Val {
+		fr.curLockArg = av[0]
 		fr.doUnlock(a[0].T, pos)
 		return nil
 	}
@@ -113,10 +115,12 @@ func init() {
 	S["(*sync.RWMutex).Lock"] = S["(*sync.Mutex).Lock"]
 	S["(*sync.RWMutex).Unlock"] = S["(*sync.Mutex).Unlock"]
 	S["(*sync.RWMutex).RLock"] = func(fr *Frame, c *ssa.CallCommon, a []*Val, av []ssa.Value, pos token.Pos) *Val {
+		fr.curLockArg = av[0]
 		fr.doRLock(a[0].T, pos)
 		return nil
 	}
 	S["(*sync.RWMutex).RUnlock"] = func(fr *Frame, c *ssa.CallCommon, a []*Val, av []ssa.Value, pos token.Pos) *Val {
+		fr.curLockArg = av[0]
 		fr.doRUnlock(a[0].T, pos)
 		return nil
 	}
